@@ -103,12 +103,12 @@ func buildScript(seed int64, idx int) *script {
 // child side
 
 type verifyOut struct {
-	Snap1     *snapshot `json:"snap1"`      // plain store reopen
-	Snap2     *snapshot `json:"snap2"`      // after retrying the interrupted operation
-	Snap3     *snapshot `json:"snap3"`      // node started, one pending-bundle pass
-	Snap4     *snapshot `json:"snap4"`      // after the node's clean-store pass
-	OpenErr   string    `json:"open_err"`   // NewStore
-	RetryErr  string    `json:"retry_err"`  // retried operation
+	Snap1     *snapshot `json:"snap1"`     // plain store reopen
+	Snap2     *snapshot `json:"snap2"`     // after retrying the interrupted operation
+	Snap3     *snapshot `json:"snap3"`     // node started, one pending-bundle pass
+	Snap4     *snapshot `json:"snap4"`     // after the node's clean-store pass
+	OpenErr   string    `json:"open_err"`  // NewStore
+	RetryErr  string    `json:"retry_err"` // retried operation
 	CloseErr  string    `json:"close_err"`
 	NodeErr   string    `json:"node_err"`   // routing.NewCore / panic while the node ran
 	BubbleErr string    `json:"bubble_err"` // informational (goroutines left when the bubble ended)
@@ -350,7 +350,7 @@ type crashCase struct {
 }
 
 func crashGroups(t *testing.T, r *report.Run) {
-	nScripts := r.Pick(2, 10)
+	nScripts := r.Pick(2, 20)
 	for idx := 0; idx < nScripts; idx++ {
 		group := fmt.Sprintf("crash%d", idx)
 		if r.Only != "" && !strings.HasPrefix(r.Only, group+"/") {
@@ -359,7 +359,6 @@ func crashGroups(t *testing.T, r *report.Run) {
 		sc := buildScript(r.Seed, idx)
 		// dry run: counts the hits of every crash point and checks the script itself against the reference
 		dir := scratch("c08-dry-")
-		r.Journal("case " + group + "/dry")
 		out, _, err := runChild(childCmd(r.Seed, idx, dir, "run", "C08_JOURNAL="+filepath.Join(dir, "journal")))
 		ji := readJournal(filepath.Join(dir, "journal"))
 		if err != nil || !ji.Done {
@@ -555,4 +554,3 @@ func runCrash(r *report.Run, idx int, sc *script, cc crashCase) {
 			"in_flight": inflight.String(), "node_bubble_note": vo.BubbleErr})
 	}
 }
-
